@@ -243,8 +243,11 @@ def run_writer_case(prog, params):
                 return findings
             ref = RefCursor((), 0) if mode == 'create' else RefCursor(cur, len(cur))
             published = () if mode == 'create' else cur       # create truncates immediately
+            # an append handle of PhysicalFS is an O_APPEND file: seeks do not move its write position (by design; the
+            # statement's exclusions for C02/C14 name it). Its sessions consist of writes and flushes only.
+            oappend = 'phys' in cfg and mode == 'append'
             for step in range(k):
-                kind = ex.choose(5, 'wkind')
+                kind = ex.choose(5, 'wkind') if not oappend else (0, 4)[ex.choose(2, 'wkind')]
                 if kind == 0:
                     n = 1 + ex.choose(2, 'wlen')
                     name = 'wd%d_%d' % (si, step)
